@@ -114,7 +114,9 @@ class GenotypeBackedSource(RandomSource):
     def random_float(self, min: float, max: float) -> float:
         # (a gene rewritten by mutate() may be as large as sys.maxsize: reduce it to the range genes are created in)
         v = self.decider.read(float) % (MAX_GENE_VALUE + 1)
-        return (v / MAX_GENE_VALUE) * (max - min) + min
+        r = (v / MAX_GENE_VALUE) * (max - min) + min
+        # (min + (max - min) can round above max)
+        return max if r > max else r
 
 
 class DynamicStructuredGrammaticalEvolutionRepresentation(
